@@ -269,6 +269,60 @@ func VH_C17_Join() {
 	}
 }
 
+// several tokens captured into a scalar with an elided token lying between
+// them: the captured (non-elided) tokens are joined, nothing else
+func VH_C17_JoinElided() {
+	t := vhNumTexts[vChoose("text", len(vhNumTexts))]
+	pos := func(i int) lexer.Position { return lexer.Position{Filename: "f", Offset: i, Line: 1, Column: i + 1} }
+	toks := []lexer.Token{{Type: vhTB, Value: "-", Pos: pos(0)}}
+	between := vChoose("elidedBetween", 3)
+	for i := 0; i < between; i++ {
+		toks = append(toks, lexer.Token{Type: vhTWs, Value: " ", Pos: pos(len(toks))})
+	}
+	toks = append(toks, lexer.Token{Type: vhTA, Value: t, Pos: pos(len(toks))})
+	toks = append(toks, lexer.EOFToken(pos(len(toks))))
+	p := vhBuild[vnJoin](vhElideWs, &vhStreamDef{toks: toks}, 1)
+	ast, err := p.ParseString("f", "")
+	want, werr := strconv.ParseInt("-"+t, 0, 16)
+	if werr == nil {
+		vAssert(err == nil && int64(ast.V) == want, "C17: the captured tokens must be joined (elided tokens between them are not captured) and converted")
+		vReach("converts")
+	} else {
+		vAssert(err != nil, "C17: joined text rejected by strconv but the parse succeeded")
+		pe, ok := err.(Error)
+		vAssert(ok && pe.Position() == toks[0].Pos, "C17: conversion error is not located at the first captured token")
+		vReach("rejects")
+	}
+}
+
+type vnPtrSlice struct {
+	V []*int8 `@A+`
+}
+
+// each element captured into a slice of pointers to numbers
+func VH_C17_PtrSlice() {
+	toks, texts := vhNumStream(1+vChoose("n", 2), false)
+	p := vhBuild[vnPtrSlice](vhNoElide, &vhStreamDef{toks: toks}, 1)
+	ast, err := p.ParseString("f", "")
+	allOK := true
+	for _, t := range texts {
+		if _, e := strconv.ParseInt(t, 0, 8); e != nil {
+			allOK = false
+		}
+	}
+	if allOK {
+		vAssert(err == nil && len(ast.V) == len(texts), "C17: every element accepted by strconv but the parse failed or dropped elements")
+		for i, t := range texts {
+			w, _ := strconv.ParseInt(t, 0, 8)
+			vAssert(ast.V[i] != nil && int64(*ast.V[i]) == w, "C17: slice element differs from strconv's result")
+		}
+		vReach("converts")
+	} else {
+		vAssert(err != nil, "C17: an element rejected by strconv but the parse succeeded")
+		vReach("rejects")
+	}
+}
+
 func VH_C17_Slice() {
 	toks, texts := vhNumStream(1+vChoose("n", 2), false)
 	p := vhBuild[vnSlice](vhNoElide, &vhStreamDef{toks: toks}, 1)
